@@ -96,16 +96,44 @@ def traces(c, tier, seed, wd):
             c.cov["binding_selftest"] = "corrupted encoded length rejected"
 
 
+def server_leg(c, seed, wd, cases_path):
+    """the real server process, over TCP, with the real codec on our side"""
+    import subprocess
+    tgt = os.path.join(vlib.HARNESS, "target", "srv")
+    p = subprocess.run(["cargo", "build", "--offline", "--quiet", "-p", "axmosdb", "--bin", "axmos-server"], cwd="/repo",
+                       env=dict(os.environ, CARGO_TARGET_DIR=tgt, CARGO_NET_OFFLINE="true"), stdout=subprocess.PIPE, stderr=subprocess.STDOUT, text=True)
+    if p.returncode != 0:
+        raise ToolError("server build failed: " + p.stdout[-600:])
+    tp = os.path.join(wd, "wire-server.ndjson")
+    rep = os.path.join(wd, "wire-server.json")
+    rc, so, _ = axv(["wire", "server", "--server-bin", os.path.join(tgt, "debug", "axmos-server"), "--cases", cases_path, "--seed", seed,
+                     "--dir", os.path.join(wd, "srv"), "--out", tp, "--report", rep], timeout=1200, check=False)
+    if rc != 0:
+        raise ToolError("server leg could not run (rc %s)" % rc)
+    s = last_json(so)
+    c.add("server_statements", s["statements"])
+    c.add("server_rows_compared", s["rows_compared"])
+    c.add("server_garbage_frames", s["garbage_frames"])
+    ok, r = validate(c, tp, "server")
+    c.add("traces_validated_against_impl", 1)
+    c.add("trace_events", s["events"])
+    if s["problems"] or not ok:
+        pth = vlib.save_replay(PROP, "wire-server.ndjson", tp)
+        c.violation("the server process: %s" % (s.get("first") or (r.error_text or "trace rejected")), pth)
+
+
 def run(tier, seed):
     c = Check(PROP, tier, seed, "model_checking")
     wd = vlib.workdir("c20")
     c.assumptions = ["strings cross the wire as bytes; a decoded String is compared with the lossy UTF-8 reading of the specification's bytes",
                      "the byte-string family is every truncation and every substitution of one byte by 0, 1, 2 or 255 in every message of the "
                      "small family; larger inputs are covered by seeded traces whose shape (lengths, counts) the specification checks",
-                     "hang = the decoders and the frame reader are pure functions of a finite buffer; a socket that never delivers is outside the property"]
+                     "hang = the decoders and the frame reader are pure functions of a finite buffer; end to end the real server process is given 5 s to answer or close a connection that sent a rejected frame, and must still answer Ping afterwards"]
     model_and_replay(c, wd)
     if not c.violations:
         traces(c, tier, seed, wd)
+    if not c.violations:
+        server_leg(c, seed, wd, os.path.join(wd, "cases.ndjson"))
     c.cov["rule"] = "non-trivial case = a byte string the specification rejects (truncated, wrong version, unknown tag, impossible count)"
     c.cov["exhaustive"] = True
     shutil.rmtree(wd, ignore_errors=True)
